@@ -189,6 +189,12 @@ def run(ctx):
             continue
         reported.add(key)
         hit = leaks.get(key)
+        if hit is None and tlsrun is not None:
+            # an observation made on a live connection under a treatment that exercises this function
+            for lk, fns in tlsrun.HINTS.items():
+                if r["fn"] in fns and lk in leaks and lk not in reported:
+                    hit = leaks[lk]; reported.add(lk)
+                    break
         text = "%s:%d %s() passes %s data [%s] to %s on %s outside any print routine" % (
             r["file"], r["line"], r["fn"], r["prov"].lower(), r["args"], r["callee"], r["stream"])
         if hit:
